@@ -209,6 +209,11 @@ func (rw *rworld) start(rn *rnode) {
 	for _, other := range rw.nodes {
 		if other != rn {
 			rw.link(rn, other)
+			// cfg eager=1: peers that are up dial the new host at once, so the node has connected peers when its
+			// sync services start (otherwise they find it whenever their own dialing gets round to it)
+			if rw.s.Cfg["eager"] == 1 && other.up && !rn.cut && !other.cut {
+				_, _ = rw.mn.ConnectPeers(other.pid, rn.pid)
+			}
 		}
 	}
 	ctx, cancel := context.WithCancel(context.Background())
@@ -569,7 +574,7 @@ func c13RestartBody(t *testing.T, s *sim.Scn, o *sim.Outcome) {
 func c13RestartGen(r *rand.Rand, tier string) *sim.Scn {
 	s := &sim.Scn{Cfg: map[string]int64{
 		"restart": 1, "nfull": r.Int64N(2), "bt": []int64{250, 500, 1000}[r.IntN(3)], "dat": []int64{1000, 3000}[r.IntN(2)],
-		"lazy": r.Int64N(2), "maxpending": []int64{0, 0, 3}[r.IntN(3)], "dalat": []int64{0, 5, 50}[r.IntN(3)], "linkms": []int64{0, 3, 18, 38}[r.IntN(4)],
+		"lazy": r.Int64N(2), "maxpending": []int64{0, 0, 3}[r.IntN(3)], "dalat": []int64{0, 5, 50}[r.IntN(3)], "linkms": []int64{0, 3, 18, 38}[r.IntN(4)], "eager": r.Int64N(2),
 	}}
 	n := 4 + r.IntN(10)
 	for i := 0; i < n; i++ {
